@@ -171,7 +171,7 @@ pick_colliding_uids(void)
 }
 
 /* ---------------- events ---------------- */
-enum {E_ADD, E_CANCEL, E_TICK_ONTIME, E_TICK_IDLE, E_TICK_LATE, E_EXIT, E_LIST, E_SCHED, E_ADDOWN, E_ADD2, E_TICK_EXACT, E_TICK_FAIL, E_STOP, E_TICKX, E_ADDGONE, E_ADDANON};
+enum {E_ADD, E_CANCEL, E_TICK_ONTIME, E_TICK_IDLE, E_TICK_LATE, E_EXIT, E_LIST, E_SCHED, E_ADDOWN, E_ADD2, E_TICK_EXACT, E_TICK_FAIL, E_STOP, E_TICKX, E_ADDGONE, E_ADDANON, E_ADDVANISH};
 struct ev_s {
 	int kind;
 	int user;	/* index into users[] */
@@ -251,6 +251,7 @@ evname(char *buf, size_t bsz, const struct ev_s *e)
 	case E_ADD2: snprintf(buf, bsz, "ADD2(%u,%s+%s,%s)", users[e->user], uids[e->uid], uids[e->arg2], tpls[e->arg].name); break;
 	case E_ADDGONE: snprintf(buf, bsz, "ADD(%u,%s,%s; the client is gone before the reply)", users[e->user], uids[e->uid], tpls[e->arg].name); break;
 	case E_ADDANON: snprintf(buf, bsz, "ADD(peer 4242 whom the user data base does not know,%s,owner=%s)", uids[e->uid], e->arg2 == 0 ? "absent" : e->arg2 == 1 ? "1000" : "alice"); break;
+	case E_ADDVANISH: snprintf(buf, bsz, "ADD(%u,%s,%s; the user data base fails at look-up %d of the request)", users[e->user], uids[e->uid], tpls[e->arg].name, e->arg2); break;
 	case E_CANCEL: snprintf(buf, bsz, "CANCEL(%u,%s)", users[e->user], uids[e->uid]); break;
 	case E_TICK_ONTIME: snprintf(buf, bsz, "TICK(on-time)"); break;
 	case E_TICK_IDLE: snprintf(buf, bsz, "TICK(idle)"); break;
@@ -269,7 +270,7 @@ evname(char *buf, size_t bsz, const struct ev_s *e)
 static const char*
 evkind(const struct ev_s *e)
 {
-	static const char *const k[] = {"ADD", "CANCEL", "TICK-ontime", "TICK-idle", "TICK-late", "EXIT", "LIST", "SCHED", "ADDOWN", "ADD2", "TICK-exact", "TICK-spawnfail", "STOP", "TICK+EXIT", "ADD-client-gone", "ADD-unknown-peer"};
+	static const char *const k[] = {"ADD", "CANCEL", "TICK-ontime", "TICK-idle", "TICK-late", "EXIT", "LIST", "SCHED", "ADDOWN", "ADD2", "TICK-exact", "TICK-spawnfail", "STOP", "TICK+EXIT", "ADD-client-gone", "ADD-unknown-peer", "ADD-userdb-fails"};
 	return k[e->kind];
 }
 
@@ -373,6 +374,11 @@ enabled(struct ev_s *ev, int max)
 				PUSH(E_ADD, u, k, 0);
 				/* ... and an add whose sender does not wait for the answer */
 				if (k == 0) PUSH(E_ADDGONE, u, k, 0);
+				/* ... and one during which the user data base stops answering (first or second look-up) */
+				if (k == 0 && u == 0) {
+					PUSH(E_ADDVANISH, u, k, 0, 1);
+					PUSH(E_ADDVANISH, u, k, 0, 2);
+				}
 			} else {
 				PUSH(E_ADD, u, k, 0);
 				PUSH(E_ADD, u, k, 2);
@@ -629,6 +635,37 @@ apply(const struct ev_s *e)
 					break;
 				}
 			}
+		}
+		break;
+	}
+	case E_ADDVANISH: {
+		const unsigned u = users[e->user];
+		struct mtask_s *t = m_find(uids[e->uid]);
+		size_t o = (size_t)snprintf(req, sizeof(req), "BEGIN:VCALENDAR\nVERSION:2.0\nMETHOD:PUBLISH\n");
+		o = mk_add(req, sizeof(req), uids[e->uid], &tpls[e->arg], "", o);
+		o += (size_t)snprintf(req + o, sizeof(req) - o, "END:VCALENDAR\n");
+		hx_pw_fail_in = e->arg2;
+		hx_request(&rp, u, req, o);
+		hx_pw_fail_in = 0;
+		/* one reply; refused is what one expects, accepted is fine too if the daemon got its answer in time;
+		 * either way the table must be consistent with the reply */
+		if (rp.nsucc + rp.nfail != 1) {
+			snprintf(shape, sizeof(shape), "%s/count", k);
+			report("reply", shape, "%d success / %d failure replies to one instruction", rp.nsucc, rp.nfail);
+		} else if (rp.nsucc == 1) {
+			if (t && t->owner != u) {
+				snprintf(shape, sizeof(shape), "%s/accepted", k);
+				report("reply", shape, "accepted although the UID belongs to another user");
+			} else {
+				if (t == NULL) t = m_new(uids[e->uid]);
+				m_load(t, &tpls[e->arg], u, e->arg);
+			}
+		} else if (t && t->owner == u) {
+			/* a refused replacement: the old task stays or goes, the property does not say; follow the daemon */
+			struct hx_task_s obs[HX_MAXTASKS];
+			int nobs = hx_observe(obs), seen = 0;
+			for (int j = 0; j < nobs; j++) seen |= !strcmp(obs[j].uid, t->uid);
+			if (!seen) t->present = 0;
 		}
 		break;
 	}
